@@ -130,7 +130,9 @@ PROPS["C05"] = dict(
     level_text=("Differential property: for generated valid streams (C01 generator) and their truncations, decoding through a reader that fragments the data must give the "
                 "same value (compared in the neutral node space), the same error class and the same final stream position (a sentinel value decoded next) as decoding "
                 "from a slice. Fragmentations are generated (fixed sizes 1..300, two-way splits, sizes around the 256-byte buffer, random sequences with zero-byte reads) and, "
-                "for each generated stream of up to 700 bytes, every split position and every chunk size is enumerated."),
+                "for each generated stream of up to 700 bytes, every split position and every chunk size is enumerated. Stream types include byte arrays, UUIDs, big numbers, "
+                "complex numbers and pointer structs, and a third of the cases decode into a different, convertible destination type. The whole token x destination matrix of C06 "
+                "(every spelling of every scalar value into 52 destination types, top level and as list element) is additionally decoded byte by byte and with one split at every offset."),
     level_note="A reader that returns (0, nil) for ever is outside io.Reader's contract and not generated (at most 3 in a row). When both sides panic the case is charged to C04, not here.",
     rule=("random: rapid-drawn (stream, truncation, fragmentation, buffer size); every-split: all two-way splits and all fixed chunk sizes of generated streams; boundary: "
           "strings of 1-4 byte characters placed across the 256/512-byte marks. Non-trivial = at least one read boundary fell strictly inside a token span (number, length "
